@@ -38,8 +38,25 @@ def run(prop, rep, base_holds=True, jobs=None):
     work = corpus(prop)
     if not base_holds:
         work = [w for w in work if w[1] == "detect"]
-    jobs = jobs or min(8, os.cpu_count() or 4)
+    jobs = jobs or min(12, os.cpu_count() or 4)
     res = {"detect": [0, 0], "silent": [0, 0], "skipped": 0, "failures": []}
+    # the dependencies of the crate are compiled once for all scratch copies (the crate itself is analysed afresh in each of them; the
+    # verdict on /repo itself never uses this)
+    import regress
+    import shutil
+    warm = regress.warm_deps() if not os.environ.get("VERIF_WARM_DEPS") else None
+    if warm:
+        os.environ["VERIF_WARM_DEPS"] = warm
+    try:
+        return _run(prop, rep, work, jobs, res)
+    finally:
+        if warm:
+            os.environ.pop("VERIF_WARM_DEPS", None)
+            shutil.rmtree(warm, ignore_errors=True)
+
+
+def _run(prop, rep, work, jobs, res):
+    import mutant_test
 
     def one(w):
         return w, mutant_test.run(w[0], [prop], quiet=True)
